@@ -192,6 +192,23 @@ def _run_tmp_no_context(case):
         pool.flush()
         if not ok_again or os.path.exists(again):
             return _fail("tmppool/no-context/reuse-after-flush", "create and flush work again", {"created": ok_again, "left": os.path.exists(again)})
+        # files created BEFORE the context is entered (and between two contexts on the same pool) belong to the pool like any other
+        for leave in ("normal", "raise"):
+            before = [pool.create() for _ in range(max(1, case["n"]))]
+            try:
+                with pool:
+                    inside = pool.create()
+                    listed = sorted(pool[i] for i in range(len(pool)))
+                    if listed != sorted(before + [inside]):
+                        return _fail("tmppool/created-before-enter", {"listed": len(before) + 1}, {"listed": len(listed)})
+                    if leave == "raise":
+                        raise KeyError("body fails")
+            except KeyError:
+                pass
+            left = [q for q in before + [inside] if os.path.exists(q)]
+            if left or len(pool) != 0:
+                return _fail("tmppool/created-before-enter", {"left-after-exit(%s)" % leave: [], "listed": 0},
+                             {"left": [os.path.basename(q) for q in left], "listed": len(pool)})
     finally:
         for f in os.listdir(d):
             os.remove(os.path.join(d, f))
